@@ -111,7 +111,8 @@ class C15(Check):
                     k += 1
                     if self.tier == "quick" and k % 20 != (self.seed + len(planted[0][1])) % 20:
                         continue
-                    if self.tier == "thorough" and k % 10 != (self.seed + len(planted[0][1])) % 10:
+                    m_ = 10 if wk == ("toy",) else (20 if wk[0] != "shipped" else 120)
+                    if self.tier == "thorough" and k % m_ != (self.seed + len(planted[0][1])) % m_:
                         continue
                     yield (f"+{j} lowq {op}@{pos}", (wk, planted, dv, th, ((pos, op, j, qq),)))
 
